@@ -672,6 +672,8 @@ type refSess struct {
 	exp, lease int64
 	dead       bool // dropped by a failed resumption or invalidated
 	present    bool // still stored (expired entries stay until swept)
+	// registered by Store / ImportClaimSession / MintClaimSession: not the record a client handshake makes
+	notClientSide bool
 }
 
 type refMap struct {
@@ -1031,9 +1033,25 @@ func runHistory(h history) runOut {
 			valid := validCatalogue[e.Valid%len(validCatalogue)]
 			addr := w.addrName[e.Addr]
 			id := fmt.Sprintf("announced:77:1700000000:%d", len(w.ids)+1)
+			if e.K >= 1 && e.K <= len(w.ids) {
+				id = w.idOfOrd(e.K) // the server announces an id that was issued / registered before
+				out.counts["announce-known-id"]++
+			}
 			w.ord(id)
 			cfg := &security.SecurityConfig{PeerName: addr, SecurityTag: e.Tag, SessionCache: w.cache, Command: 421}
 			security.VerifStoreClientSession(cfg, nil, id, "unauthenticated@unmapped", valid, bytes.Repeat([]byte{0x6b}, 32), security.CryptoAES, sessDuration, sessLease, w.cache)
+			if old := ref.sess[id]; old != nil && old.present && !(ref.now > old.exp) && old.notClientSide {
+				// a live record that is not a client-side one (an imported claim session) holds the id and
+				// carries another key: it is left alone, nothing is cached for the announced session
+				out.counts["announce-collides-with-imported-record"]++
+				term = fmt.Sprintf("XAnnounce n%d n%d n%d %s", w.sidN(id), idx(tags, e.Tag), e.Addr, hexs(valid))
+				break
+			}
+			for tr, v := range ref.routes {
+				if v == id { // the entry that is replaced takes its routes with it
+					delete(ref.routes, tr)
+				}
+			}
 			nrs := &refSess{id: id, tag: e.Tag, addr: addr, cmds: map[string]bool{}, exp: ref.now + sessDuration, lease: sessLease, present: true}
 			ref.sess[id] = nrs
 			for _, f := range strings.Split(valid, ",") { // what the server declared: the non-empty elements, as written
@@ -1088,7 +1106,7 @@ func runHistory(h history) runOut {
 			if old := ref.sess[id]; old != nil && old.present {
 				out.counts["import-over-stored-entry"]++
 			}
-			nrs := &refSess{id: id, tag: e.Tag, addr: addr, cmds: map[string]bool{cmdStr: true}, exp: ref.now + sessDuration, lease: sessLease, present: true}
+			nrs := &refSess{id: id, tag: e.Tag, addr: addr, cmds: map[string]bool{cmdStr: true}, exp: ref.now + sessDuration, lease: sessLease, present: true, notClientSide: true}
 			for tr, v := range ref.routes {
 				if v == id { // the entry that is replaced takes its routes with it
 					delete(ref.routes, tr)
@@ -1217,7 +1235,11 @@ func randEvent(c *core.Ctx, pos int, prev []event) event {
 	case x < 89:
 		return event{Kind: "invalexp"}
 	case x < 91:
-		return event{Kind: "announce", Tag: tags[r.Intn(3)], Addr: r.Intn(2), Valid: r.Intn(len(validCatalogue))}
+		e := event{Kind: "announce", Tag: tags[r.Intn(3)], Addr: r.Intn(2), Valid: r.Intn(len(validCatalogue))}
+		if r.Intn(3) == 0 {
+			e.K = 1 + r.Intn(3)
+		}
+		return e
 	case x < 94:
 		e := event{Kind: "import", K: 1 + r.Intn(2), Tag: tags[r.Intn(3)], Addr: r.Intn(2), Cmd: cmds[r.Intn(3)]}
 		if r.Intn(2) == 0 {
@@ -1336,6 +1358,11 @@ func gen(c *core.Ctx) error {
 		{H("tagA", 0, 421), {Kind: "tick", Dt: 3000}, {Kind: "lne", K: 1}, {Kind: "invalexp"}, {Kind: "import", K: 1, Tag: "tagB", Addr: 1, Cmd: 9}, H("tagA", 0, 421), H("tagB", 1, 9), H("tagA", 0, 60007)},
 		{H("", 0, 421), {Kind: "tick", Dt: 3000}, {Kind: "hs", Tag: "tagB", Addr: 1, Cmd: 9, Mode: "ok", Via: "peername", Explicit: 1}, {Kind: "invalexp"}, {Kind: "import", K: 1, Tag: "tagA", Addr: 0, Cmd: 60007}, H("", 0, 421), H("", 0, 60007), H("tagA", 0, 60007)},
 		{H("tagA", 0, 421), H("tagB", 1, 60007), {Kind: "tick", Dt: 3000}, {Kind: "lne", K: 1}, {Kind: "invalexp"}, {Kind: "invalexp"}, {Kind: "import", K: 1, Tag: "", Addr: 0, Cmd: 421}, H("tagA", 0, 60007), H("", 0, 421)},
+		// a server announces the id of an imported claim session (a record that is not a client-side one, other key)
+		{{Kind: "import", Claim: 1, Tag: "tagA", Addr: 0, Cmd: 421}, {Kind: "announce", K: 1, Tag: "tagB", Addr: 1, Valid: 10}, H("tagB", 1, 421), H("tagB", 1, 60007), H("tagA", 0, 421)},
+		{{Kind: "import", Claim: 1, Mint: true, Tag: "", Addr: 0, Cmd: 9}, {Kind: "announce", K: 1, Tag: "", Addr: 0, Valid: 10}, H("", 0, 421), H("", 0, 9), {Kind: "tick", Dt: 3000}, {Kind: "announce", K: 1, Tag: "tagA", Addr: 1, Valid: 10}, H("tagA", 1, 421)},
+		// ... and the id of a session an earlier handshake established (a client-side record: replaced)
+		{H("tagA", 0, 421), {Kind: "announce", K: 1, Tag: "tagB", Addr: 1, Valid: 10}, H("tagA", 0, 421), H("tagB", 1, 421)},
 		// MintClaimSession with a tag, a peer address and commands: the routes are filed under that tag
 		{{Kind: "import", Claim: 1, Mint: true, Tag: "tagA", Addr: 0, Cmd: 421}, H("tagA", 0, 421), H("", 0, 421), H("tagB", 0, 421)},
 		{{Kind: "import", Claim: 2, Mint: true, Tag: "tagB", Addr: 1, Cmd: 9}, H("", 1, 9), H("tagB", 1, 9), {Kind: "import", Claim: 2, Mint: true, Tag: "", Addr: 1, Cmd: 60007}, H("tagB", 1, 9), H("", 1, 60007)},
